@@ -2,6 +2,7 @@ package props
 
 import (
 	"fmt"
+	"strings"
 	"time"
 
 	"github.com/ipfs/go-cid"
@@ -277,7 +278,7 @@ var _ = time.Second
 // ---- a richer universe of satisfied policies ----
 
 // c05TrueStatements are statements that are true, by the classical reading of the policy
-// language, for the arguments {x:1, f:1.5, y:"ab", s:"a*b\\c", l:[1,2,3], m:{k:"v"}, e:[]}.
+// language, for the arguments {x:1, f:1.5, y:"ab", s:"a*b\\c", l:[1,2,3], m:{k:"v"}, e:[], r:"backup"+60x"_"+"v2.tar", q:400x"a"+"b"}.
 // One statement per operator / selector / pattern feature.
 func c05TrueStatements() []policy.Constructor {
 	return []policy.Constructor{
@@ -302,6 +303,10 @@ func c05TrueStatements() []policy.Constructor {
 		policy.Like(".s", `a\*b\\c`),
 		policy.Like(".s", `a\**`),
 		policy.Like(".s", `*\\c`),
+		policy.Like(".r", "*__v2.tar"),
+		policy.Like(".r", "backup*_v2.tar"),
+		policy.Like(".q", "*aab"),
+		policy.Like(".q", "*"+strings.Repeat("a", 33)+"b"),
 		policy.Not(policy.Equal(".x", literal.Int(2))),
 		policy.Not(policy.Like(".y", "b*")),
 		policy.And(policy.Equal(".x", literal.Int(1)), policy.Like(".y", "a*b")),
@@ -326,9 +331,9 @@ func c05PolicySub() *engine.Sub {
 	stmts := c05TrueStatements()
 	return &engine.Sub{
 		Name: "satisfied-policy-universe",
-		Rule: "rule-conforming chains of 1..2 links (quick; 3 thorough) whose policies are drawn from 31 statements that are true for the invocation's arguments under the classical reading - one per operator, selector form (field, nested field, index, negative index, slice, optional, iterator) and pattern feature (literal, prefix/suffix star, escapes without and with stars, escaped backslash); every such invocation must be allowed; non-trivial = all",
+		Rule: "rule-conforming chains of 1..2 links (quick; 3 thorough) whose policies are drawn from 35 statements that are true for the invocation's arguments under the classical reading - one per operator, selector form (field, nested field, index, negative index, slice, optional, iterator) and pattern feature (literal, prefix/suffix star, escapes without and with stars, escaped backslash); every such invocation must be allowed; non-trivial = all",
 		Bound: func(t string) string {
-			return fmt.Sprintf("31 true statements per link, chains of 1..%d links, leaf policy of 1 or 2 statements", tierN(t, 2, 3))
+			return fmt.Sprintf("35 true statements per link, chains of 1..%d links, leaf policy of 1 or 2 statements", tierN(t, 2, 3))
 		},
 		Setup: func(string) error { chainInit(); return nil },
 		Gen: func(tier string, emit func(any) bool) {
@@ -380,7 +385,8 @@ func c05PolicySub() *engine.Sub {
 			}
 			inv, err := invocation.New(prin(n%3), prin(0), "/a", prf, invocation.WithNonce(fixedNonce),
 				invocation.WithArgument("x", 1), invocation.WithArgument("f", 1.5), invocation.WithArgument("y", "ab"), invocation.WithArgument("s", `a*b\c`),
-				invocation.WithArgument("l", []int{1, 2, 3}), invocation.WithArgument("m", map[string]string{"k": "v"}), invocation.WithArgument("e", []int{}))
+				invocation.WithArgument("l", []int{1, 2, 3}), invocation.WithArgument("m", map[string]string{"k": "v"}), invocation.WithArgument("e", []int{}),
+				invocation.WithArgument("r", "backup"+strings.Repeat("_", 60)+"v2.tar"), invocation.WithArgument("q", strings.Repeat("a", 400)+"b"))
 			if err != nil {
 				panic(err)
 			}
